@@ -16,7 +16,13 @@ fn e(l: u64, s: &[usize], t: &[usize]) -> PEdge<u64> {
 }
 
 /// fixed hostile pairs; each names the class of the property's quantifier it covers
-fn corpus() -> Vec<(&'static str, P, P)> {
+/// built once per process
+fn corpus() -> &'static Vec<(&'static str, P, P)> {
+    static C: std::sync::OnceLock<Vec<(&'static str, P, P)>> = std::sync::OnceLock::new();
+    C.get_or_init(corpus_build)
+}
+
+fn corpus_build() -> Vec<(&'static str, P, P)> {
     let empty = P::empty();
     let zigzag = |n: usize| -> (P, P) {
         // f: n nodes, t = [0,1,1,2,2,...,n-1]; g: n-1 nodes, s = [0,0,1,1,...]; all collapse
